@@ -35,9 +35,10 @@ META = {
 }
 
 TARGETS = ["OverflowPartial", "LateJoiner", "PubDroppedInFlight", "ReconnectSub", "ReconnectPub", "TwoPubs",
-           "SkipThenReceive"]
+           "SkipThenReceive", "CqFull", "ExpiredDiscard"]
 NEED_EVENTS = ["send", "recv:some", "recv:none", "has", "create_sub:ok", "create_pub:ok", "drop_pub", "drop_sub",
-               "update_pub", "update_sub"]
+               "update_pub", "update_sub", "break_seg", "occupy", "recv:ConnectionFailure", "send:ConnectionFailure",
+               "send_begin", "bp", "bp_ret:retry", "bp_ret:discard", "send_end:ok"]
 
 
 def mc_instances(quick):
@@ -45,9 +46,25 @@ def mc_instances(quick):
     inst = [("A_1x2_overflow", Q(maxpubs=1, maxsubs=2, bufmax=1, hist=1, borrow=1, loan=1, overflow=True),
              [1], [1, 2], [1], [1], 3, None),
             ("B_2x1_retry", Q(maxpubs=2, maxsubs=1, bufmax=1, hist=1, borrow=1, loan=1, overflow=False, strategy="retry_fail"),
-             [1, 2], [1], [1], [1], 3, None)]
+             [1, 2], [1], [1], [1], 3, None),
+            # split form of send: calls of the subscriber from inside the unable-to-deliver handler
+            ("N_1x1_split", Q(maxpubs=1, maxsubs=1, bufmax=1, hist=1, borrow=1, loan=1, overflow=False, strategy="retry_fail"),
+             [1], [1], [1], [1], 3, None, ps.inst_opts(split=True)),
+            # connection faults: data segment of a publisher gone / sender side of a connection occupied
+            ("F_2x1_faults", Q(maxpubs=2, maxsubs=1, bufmax=1, hist=0, borrow=1, loan=1, overflow=True),
+             [1, 2], [1], [1], [0], 2, None, ps.inst_opts(faults=True, degs=("fail",)))]
     if not quick:
         inst += [
+            ("N_1x2_split", Q(maxpubs=1, maxsubs=2, bufmax=1, hist=0, borrow=1, loan=2, overflow=False, strategy="retry_discard"),
+             [1], [1, 2], [1], [0], 4, "SysView", ps.inst_opts(split=True)),
+            ("N_1x1_concurrent", Q(maxpubs=1, maxsubs=1, bufmax=2, hist=1, borrow=1, loan=1, overflow=False, strategy="retry_discard"),
+             [1], [1], [2], [1], 4, None, ps.inst_opts(split=True, conc=True)),
+            ("F_2x1_faults_deg", Q(maxpubs=2, maxsubs=1, bufmax=1, hist=1, borrow=1, loan=1, overflow=True),
+             [1, 2], [1], [1], [1], 3, "SysView", ps.inst_opts(faults=True, degs=("warn", "fail"))),
+            ("F_1x2_faults", Q(maxpubs=1, maxsubs=2, bufmax=1, hist=0, borrow=1, loan=1, overflow=False),
+             [1], [1, 2], [1], [0], 3, "SysView", ps.inst_opts(faults=True, degs=("fail",))),
+            ("X_3x1_expired", Q(maxpubs=2, maxsubs=1, bufmax=1, hist=0, borrow=1, loan=1, overflow=True, expbuf=1),
+             [1, 2, 3], [1], [1], [0], 3, "SysView"),
             ("R_reconnect", Q(maxpubs=1, maxsubs=1, bufmax=1, hist=1, borrow=1, loan=1, overflow=True),
              [1, 2], [1, 2], [1], [1], 3, None),
             ("C_1x2_discard_b2", Q(maxpubs=1, maxsubs=2, bufmax=2, hist=2, borrow=1, loan=1, overflow=False),
@@ -80,7 +97,8 @@ def run(ctx):
     ctx.assumptions += [
         "sequential API histories (one driving thread); queue-level concurrency is property C03",
         "retry strategy observed as retry-then-abort via the unable-to-deliver handler",
-        "expired-connection buffer (64) larger than the number of publisher instances of a run",
+        "expired-connection buffer 64 (never overflows) or 1..3 (modelled: only a connection without held samples is sacrificed)",
+        "connection faults: data segment of a live publisher removed, sender side of a connection occupied (permanent within a run)",
         "model instances: <= 2 publisher and <= 2 subscriber instances alive, <= 4 loans; executions: <= 8/10 instances per run",
     ]
     ps.mc_phase(ctx, PID, mc_instances(quick), code_dependent=False)
@@ -88,12 +106,18 @@ def run(ctx):
         (("u64", "ipc"), ("slice", "local"), ("slice", "ipc"), ("u64", "local"))
     trace, jobs = ps.roundtrip(ctx, PID, TARGETS, tail, NEED_EVENTS,
                                nsim=10 if quick else 120, depth=40 if quick else 60,
-                               ngen=10, steps=140 if quick else 80, variants=variants, scripted=ps.history_matrix_jobs(variants))
+                               ngen=10, steps=140 if quick else 80, variants=variants,
+                               scripted=ps.history_matrix_jobs(variants) + ps.fault_jobs(variants) + ps.expired_jobs(variants)
+                               + ps.nested_jobs(variants)[::2 if quick else 1])
     if not quick:
         ps.selftest(ctx, PID, trace, lambda r: r.get("a") == "recv" and r.get("r") == "some",
                     lambda r: r.update(id=r["id"] + 1), "received_id_changed")
         ps.selftest(ctx, PID, trace, lambda r: r.get("a") == "send" and r.get("r") == "ok" and r.get("n", 0) > 0,
                     lambda r: r.update(n=r["n"] - 1), "recipients_changed")
+        ps.selftest(ctx, PID, trace, lambda r: r.get("a") == "recv" and r.get("r") == "ConnectionFailure",
+                    lambda r: r.update(r="none"), "connection_failure_dropped")
+        ps.selftest(ctx, PID, trace, lambda r: r.get("a") == "bp_ret" and r.get("act") == "retry",
+                    lambda r: r.update(act="fail"), "handler_answer_changed")
     ps.cleanup_shm()
 
 
